@@ -4,7 +4,10 @@ RULE = ("a real Server on a real TLS listener, built from gate-instrumented copi
         "scenarios in which handshake steps, teardowns and UpdatePublicKeys are held at their gates and released in chosen orders: two "
         "simultaneous handshakes of one key, a key revoked while its handshake sits before the single-session check / before the registration, "
         "the teardown of a swept session delayed past the registration of the client's newer session, a second session of a connected key, "
-        "disconnect and reconnect, revocation of a connected key with a bystander, an invalid update; the registry steps taken (from the gate "
+        "disconnect and reconnect, revocation of a connected key with a bystander, an invalid update, a refused update (a key of a wrong length "
+        "at a seeded position) whose valid keys omit a connected and a listed key, key rotations of equal and larger length that drop "
+        "connected keys; a raw peer that never reads after the upgrade (transport durations scaled as in C17) must leave the count, the key "
+        "list and the routing within pongWait + pingPeriod + 2 s; the registry steps taken (from the gate "
         "trace) are replayed through Registry and the server's count and key list must agree; independently, seen from outside: at most one raw "
         "connection per key is served, the count equals the number of served keys, a listed peer is served, a revoked one is not")
 ASSUMPTIONS = ["'served' = the server answers a request on that socket within 400 ms", "crypto/tls calls the verify callback on every full handshake"]
@@ -38,3 +41,21 @@ def run(ctx, name="C11"):
             ctx.fail(r["fail"].split("/")[0], "registry monitor '%s' failed: %s" % (r["fail"], str(r.get("info"))[:600]), case=r)
     hdr = "From Coq Require Import List NArith ZArith String.\nImport ListNotations.\nOpen Scope nat_scope."
     ctx.model("Run.RunC11", recs, header=hdr)
+    # a session that ends because its peer has died leaves the view within a bounded time: the same build with the
+    # transport's durations scaled as in C17 (source rewrite of time.Second in transport.go), in a run of its own so
+    # that the gate scenarios above keep the real keepalive times
+    scale = 10 if ctx.thorough else 25
+    rw = {"internal/transport/transport.go": [(r"\btime\.Second\b", "vSecond")]}
+    extra2 = dict(extra)
+    extra2["internal/transport/zz_verif_scale.go"] = c17.scale_file(scale)
+    rc2, out2, recs2 = c17.go_scaled(ctx, "", "^TestVerifC11Silent$", FILES, "wsrpc", rw, extra2, 300, env={"VERIF_SCALE": scale})
+    n = ctx.rewrite_counts["internal/transport/transport.go"][0]
+    ctx.oblige(n >= 2, name + "_transport_time_constants", "(expected the time.Second-based constants in transport.go, found %d sites)" % n)
+    ctx.extra["time_scale_silent_peer"] = scale
+    ctx.records += recs2
+    if rc2 != 0 or not recs2:
+        ctx.fail("harness:" + name + "-silent", "the silent-peer harness did not run to completion on this tree: " + out2[-1500:], kind="correspondence", no_input=True)
+        return
+    for r in recs2:
+        if r.get("fail"):
+            ctx.fail(r["fail"].split("/")[0], "registry monitor '%s' failed: %s" % (r["fail"], str(r.get("info"))[:600]), case=r)
